@@ -51,7 +51,7 @@ def _emit_strings(f, attr="emit"):
     return sorted(out, key=lambda t: (t[0], t[1]))
 
 
-def check(run, P):
+def _check_main(run, P):
     run.rule("C12.exit", "early exits jump to the exit label; after it every entry of "
              "the symbol table is released, unfiltered", minimum=5)
     run.rule("C12.move", "move: release old value, associate pointer, associate "
@@ -616,3 +616,9 @@ def _allocatable(run, P):
                    "is_allocatable admits to: a structure that looks only one level "
                    "down leaves nested pointers unassociated while the assignment code "
                    "still writes through them")
+
+
+def check(run, P):
+    _check_main(run, P)
+    from . import generic
+    generic.lints(run, P, "C12")
